@@ -5,5 +5,7 @@ d=$(realpath ${1%/}); P=${2:-all}; T=$(mktemp -d /tmp/tp-XXXXXX)
 rsync -a --exclude .git /repo/ $T/repo/
 (cd $T/repo && patch -p1 -s -i $d/patch.diff) || { echo "does not apply"; rm -rf $T; exit 2; }
 mkdir -p $T/v; cp /verif/KNOWN_FINDINGS.txt $T/v/
-${BIN:-/verif/bin/otrcheck} -property $P -repo $T/repo -verif $T/v 2>&1 | grep -E '^  \[|^C[0-9]+ tier' | grep -v 'violations=0' | sed -e "s#$T/repo/##g" | sort -u
+${BIN:-/verif/bin/otrcheck} -property $P -repo $T/repo -verif $T/v > $T/out.txt 2>&1
+grep -q '^C[0-9]* tier' $T/out.txt || { echo "CRASH (analyser did not finish):"; tail -5 $T/out.txt; }
+cat $T/out.txt | grep -E '^  \[|^C[0-9]+ tier' | grep -v 'violations=0' | sed -e "s#$T/repo/##g" | sort -u
 rm -rf $T
